@@ -1,17 +1,15 @@
-\* C11 quick A: every module graph over 3 modules (<= 2 requires each; form and
-\* load-time bump of an edge fixed by its position), every form of requiring
-\* the first module followed by the bumps it makes possible
+\* C11 simulation, thorough: random graphs over 5 modules, 4 commands
 CONSTANTS
   Interps = {"i1"}
   UnwindOnFailure = TRUE
   Mode = "c11"
-  ModSeq <- Mods3
+  ModSeq <- Mods5
   MaxOut = 2
-  GenRot = TRUE
+  GenRot = FALSE
   MaxCtr = 1
   LoadCap = 2
-  MaxReq = 2
-  CmdsOf <- C11Entry
+  MaxReq = 4
+  CmdsOf <- C11Cmds
   Export = TRUE
 SPECIFICATION Spec
 INVARIANT TypeOK
